@@ -123,7 +123,6 @@ fn service_name(b: &[u8]) -> Result<Real, Failure> {
                     Ok(w) => ensure!(w == v, sig(ty, "round_trip"), "ServiceName::new(x.as_str()) differs from x = {}", esc(b)),
                     Err(e) => fail!(sig(ty, "round_trip"), "ServiceName::new(x.as_str()) fails with {e:?} for the accepted x = {}", esc(b)),
                 }
-                ensure!(v.to_string().as_bytes() == b, sig(ty, "round_trip"), "Display of the accepted service name {} differs", esc(b));
                 Real::Accept
             }
             Err(ServiceNameError::InvalidContent) => Real::Invalid,
@@ -955,7 +954,7 @@ fn shape_classes(ty: Ty, b: &[u8], r: Real, obs: &mut Obs) {
 }
 
 pub fn structured(ctx: &mut Ctx, known: &Known) {
-    let total = ctx.scale(50_000u64, 1_000_000) * refpred::ALL.len() as u64;
+    let total = ctx.scale(150_000u64, 3_000_000) * refpred::ALL.len() as u64;
     ctx.proptest("validate.structured", total, case_strategy(), |c: &StrCase, obs: &mut Obs| {
         known.begin();
         let r = (|| {
